@@ -13,7 +13,10 @@
 // plus all r-vectors over {0,1,2,3} of length 3 (64 chains). thorough: length 4 (256 chains) + one
 // 40-block chain (r up to 65).
 //
-// Oracle, for every chain, before and after close/reopen, proofs obtained through the RPC handlers
+// Serving is INTERLEAVED with growth: after every committed block the whole grid so far is served and
+// checked on the running ledger, then the chain continues (serve -> commit -> serve), followed by the
+// final full grid and a close/reopen pass.
+// Oracle, for every chain, at every such round and after close/reopen, proofs obtained through the RPC handlers
 // (http/base/rpc GetCrossStatesProof / GetMerkleProof; for the parallel thorough chains through the
 // ledger.Ledger methods those handlers call):
 //  * every record key emitted in a makeProof notify of block h: MerkleProve(proof(h,key),
@@ -223,7 +226,9 @@ func commitBlock(ch *polyenv.Chain, txs []*types.Transaction, viaSync bool) stor
 
 // build commits: block 1 = side-chain registration, blocks 2..L+1 with rvec[i] records, block L+2 empty.
 // mode: "submit" | "sync" | "alternate".
-func build(tag string, rvec []int, mode string) *built {
+// onBlock (optional) runs after EVERY committed block with bt.tip = the current height: proofs are served
+// while the chain keeps growing (serve -> commit -> serve again on the same running ledger).
+func build(tag string, rvec []int, mode string, onBlock func(b *built)) *built {
 	vals := polyenv.Keys(4)
 	dir := polyenv.TmpDir("c08-")
 	tmpDirs.Store(dir, true)
@@ -247,6 +252,13 @@ func build(tag string, rvec []int, mode string) *built {
 		}
 	}
 	commitBlock(ch, setup, via(1))
+	served := func() {
+		bt.tip = ch.L.GetCurrentBlockHeight()
+		if onBlock != nil {
+			onBlock(bt)
+		}
+	}
+	served()
 	// record ids per block
 	nextID := 0
 	ids := map[uint32][]int{}
@@ -305,20 +317,27 @@ func build(tag string, rvec []int, mode string) *built {
 		if len(res.CrossHashes) != len(got) {
 			r.HarnessError("%s block %d: %d cross hashes for %d records", tag, h, len(res.CrossHashes), len(got))
 		}
+		served()
 	}
 	commitBlock(ch, nil, via(uint32(L+2)))
-	bt.tip = ch.L.GetCurrentBlockHeight()
+	served()
 	return bt
 }
 
 func (b *built) close() {
-	b.ch.Close()
+	// StateStore.Close dereferences the merkle hash store, which is nil when the restart found the hash
+	// file inconsistent ("persistence will be disabled"); that state is reported by the proof checks
+	if _, p := ev.Guard(func() { b.ch.Close() }); p {
+		r.Class("close-panicked-on-disabled-hash-store")
+	}
 	os.RemoveAll(b.ch.Dir)
 	tmpDirs.Delete(b.ch.Dir)
 }
 
 func (b *built) reopen() {
-	b.ch.Close()
+	if _, p := ev.Guard(func() { b.ch.Close() }); p {
+		r.Class("close-panicked-on-disabled-hash-store")
+	}
 	ch, err := polyenv.OpenChain(b.ch.Dir, b.vals)
 	if err != nil {
 		r.HarnessError("reopen: %v", err)
@@ -377,7 +396,7 @@ func (s ledgerServer) block(h, rootH uint32) ([]byte, error) { return s.lg.GetMe
 // ---------------------------------------------------------------------------------------------
 // oracle
 
-var nCross, nBlockProofs int64
+var nCross, nBlockProofs, nInterleaved int64
 
 func (b *built) check(sv server, phase string) {
 	L := b.ch.L
@@ -641,7 +660,20 @@ func treeBuilders(maxN, workers int) {
 // ---------------------------------------------------------------------------------------------
 
 func runChain(tag string, rvec []int, mode string, useRPC bool) {
-	b := build(tag, rvec, mode)
+	if useRPC {
+		defer polyenv.InstallHeightLedger()
+	}
+	// interleaving: after every committed block the whole grid so far (all cross-state proofs of blocks
+	// < tip, all block proofs h < r <= tip) is served and checked, then the chain continues
+	b := build(tag, rvec, mode, func(b *built) {
+		var sv server = ledgerServer{ledger.VerifNewLedger(b.ch.L)}
+		if useRPC {
+			ledger.DefLedger = ledger.VerifNewLedger(b.ch.L) // also answers the height asked during execution
+			sv = rpcServer{}
+		}
+		b.check(sv, fmt.Sprintf("interleaved/after-block-%d", b.tip))
+		atomic.AddInt64(&nInterleaved, 1)
+	})
 	defer b.close()
 	for _, phase := range []string{"live", "reopened"} {
 		if phase == "reopened" {
@@ -734,6 +766,7 @@ func main() {
 		"states":                        nCommits,
 		"transitions":                   nCommits,
 		"traces_validated_against_impl": nCross + nBlockProofs,
+		"interleaved_serving_rounds":    nInterleaved,
 		"cross_proofs_checked":          nCross,
 		"block_proofs_checked":          nBlockProofs,
 		"tree_builder_positions":        nTree,
